@@ -155,7 +155,8 @@ class Timeout:
             ) from None
 
         try:
-            if value <= 0:
+            # NaN compares false with everything, including itself.
+            if value <= 0 or value != value:
                 raise ValueError(
                     "Attempted to set %s timeout to %s, but the "
                     "timeout cannot be set to a value less "
